@@ -99,8 +99,11 @@ theorem C02_stable_models (ext inc : Bool) (ds : List Call) (hx : ∀ d ∈ ds, 
     rw [restrict_eq _ hj.inv defs]
     exact ⟨(stable_filter_kept_app _ _ _).mp h2, h3.symm⟩
 
-/-- the names shown under an interpretation: those of the output directives whose condition holds -/
-def shown (cs : List Call) (X : I) (name : List Nat) : Prop := ∃ cond, (name, cond) ∈ outsOf cs ∧ bodyR X X (.normal cond) = true
+/-- the names the GIVEN program asks to show under an interpretation: those of the output directives whose condition holds, and the helper
+    names `_edge(s,t)` of the acyclicity edges whose condition holds (the converter represents an edge by showing that name) -/
+def shown (cs : List Call) (X : I) (name : List Nat) : Prop := ∃ cond, (name, cond) ∈ srcOuts cs ∧ bodyR X X (.normal cond) = true
+/-- the names the EMITTED program shows: those of its output directives whose condition holds -/
+def shownOut (cs : List Call) (X : I) (name : List Nat) : Prop := ∃ cond, (name, cond) ∈ outsOf cs ∧ bodyR X X (.normal cond) = true
 
 theorem rep_val {c : CS} {P defs} (hj : J c P defs) (X : I) (n : Nat) (cond : List Int) (h : Rep c defs n cond) :
     bodyR ((ctxOf c defs).E X X) ((ctxOf c defs).E X X) (.normal [(n : Int)]) = bodyR X X (.normal cond) := by
@@ -135,7 +138,7 @@ theorem C02_equivalence (ext inc : Bool) (ds : List Call) (hx : ∀ d ∈ ds, Pl
         Stable (rulesOf (convert ext (stepCalls inc ds)).out) (E X) ∧ E X 1 = false ∧ restrict (convert ext (stepCalls inc ds)) (E X) = X) ∧
       (∀ X', Stable (rulesOf (convert ext (stepCalls inc ds)).out) X' → X' 1 = false →
         Stable (progOf ds) (restrict (convert ext (stepCalls inc ds)) X') ∧ E (restrict (convert ext (stepCalls inc ds)) X') = X') ∧
-      (∀ X name, shown ds X name ↔ shown (convert ext (stepCalls inc ds)).out (E X) name) := by
+      (∀ X name, shown ds X name ↔ shownOut (convert ext (stepCalls inc ds)).out (E X) name) := by
   obtain ⟨defs, hj, hj0, hk, hM, hshape, hst⟩ := step_all ext inc ds hx hE
   have hpi := hj0.inv
   have ok := ctx_ok hj
@@ -153,7 +156,7 @@ theorem C02_equivalence (ext inc : Bool) (ds : List Call) (hx : ∀ d ∈ ds, Pl
   · intro X name
     have houts : outsOf (convert ext (stepCalls inc ds)).out = (sortSyms (preEnd ext inc ds).output).map (fun p => (p.2, [(p.1 : Int)])) := by
       rw [convert_step]; exact final_outs _ hj0.nofail hshape hj0.noheur hk.noout
-    unfold shown
+    unfold shown shownOut
     rw [houts]
     constructor
     · rintro ⟨cond, hm, hb⟩
@@ -283,9 +286,9 @@ theorem C02_compute_false (ext inc : Bool) (ds : List Call) (hx : ∀ d ∈ ds, 
 
 /-! ### the statement is not vacuous: a program with every covered directive kind -/
 example : ∀ d ∈ ([.rule 0 [5] [3, -4], .rule 1 [3, 4] [], .rule 0 [] [3, 4], .sumRule 1 [6] 2 [(3, 1), (-5, 2)],
-    .minimize 1 [(3, 2), (-4, -3)], .output [97] [5], .output [98] [5], .output [99] [3, -6], .external 7 0] : List Call), PlainOk d := by
+    .minimize 1 [(3, 2), (-4, -3)], .output [97] [5], .output [98] [5], .output [99] [3, -6], .external 7 0, .acycEdge 0 1 [3, -5]] : List Call), PlainOk d := by
   intro d hd
   simp only [List.mem_cons, List.not_mem_nil, or_false] at hd
-  rcases hd with h | h | h | h | h | h | h | h | h <;> subst h <;> simp [PlainOk, I32MINc]
+  rcases hd with h | h | h | h | h | h | h | h | h | h <;> subst h <;> simp [PlainOk, I32MINc]
 
 end PotasscoVerif.C02
